@@ -27,7 +27,7 @@ NewClient(lg, v111, http) ==
 InitO(tr) ==
     [tr |-> tr, conns |-> <<>>, ann |-> <<>>, norm |-> <<>>, keyn |-> <<>>,
      mqsubs |-> {}, mqpend |-> <<>>, handed |-> <<>>, window |-> {},
-     refetch |-> <<>>, ctrig |-> <<>>, resets |-> <<>>, thr |-> <<>>, stop |-> [l |-> 0, cause |-> "", open |-> {}], down |-> FALSE, hadStop |-> FALSE, final |-> FALSE, resetObl |-> {}, keyq |-> <<>>, qev |-> <<>>, ce |-> <<>>, sq |-> <<>>, sr |-> <<>>, srOf |-> <<>>, cq |-> <<>>, rq |-> <<>>, sa |-> <<>>, rst |-> <<>>, csub |-> <<>>, refRp |-> <<>>, deadRp |-> {}]
+     refetch |-> <<>>, ctrig |-> <<>>, resets |-> <<>>, thr |-> <<>>, thrNew |-> 0, thrBudget |-> 0, stop |-> [l |-> 0, cause |-> "", open |-> {}], down |-> FALSE, hadStop |-> FALSE, final |-> FALSE, resetObl |-> {}, keyq |-> <<>>, qev |-> <<>>, ce |-> <<>>, sq |-> <<>>, sr |-> <<>>, srOf |-> <<>>, cq |-> <<>>, rq |-> <<>>, sa |-> <<>>, rst |-> <<>>, csub |-> <<>>, refRp |-> <<>>, deadRp |-> {}]
 
 Short(s) == IF Len(s) > 48 THEN SubSeq(s, 1, 24) \o "...(" \o ToString(Len(s)) \o " characters)" ELSE s
 
@@ -174,7 +174,8 @@ GrantViol(cl, rid, reqL, what) ==
 
 -----------------------------------------------------------------------------
 H_open(r) ==
-    Res(SetConn(o, r.c, NewClient(r.lg, r.ver \in {"1.1.1", "none"}, r.http)), {})
+    \* (an HTTP request makes at most one root subscription: it may create one reference throttle)
+    Res([SetConn(o, r.c, NewClient(r.lg, r.ver \in {"1.1.1", "none"}, r.http)) EXCEPT !.thrBudget = IF r.http THEN @ + 1 ELSE @], {})
 
 H_close(r) ==
     IF r.c \in DOMAIN o.conns
@@ -187,7 +188,8 @@ H_creq(r) ==
              cl2 == [cl EXCEPT !.pend = Put(cl.pend, r.id, [m |-> r.m, rid |-> r.rid, key |-> r.key, count |-> r.count, action |-> r.action, l |-> l,
                                                                   held |-> r.rid \in Held(cl.direct, cl.res), fwd |-> FALSE]),
                                !.rn = Put(cl.rn, r.rid, [n |-> r.n, q |-> r.q, key |-> r.key])]
-         IN Res(SetConn(o, r.c, cl2), {})
+         \* C19: a client request makes at most one root subscription, which may create one reference throttle
+         IN Res([SetConn(o, r.c, cl2) EXCEPT !.thrBudget = IF r.m \in {"subscribe", "get", "call", "auth", "new"} THEN @ + 1 ELSE @], {})
 
 (* outstanding requests of c that may take a direct subscription on rid *)
 PendingTakers(cl, rid, exceptId) ==
@@ -461,7 +463,15 @@ H_note0(r) ==
                       \cup (IF r.qlen > 0 /\ r.running < r.limit THEN {V("C19", "throttle " \o r.thr \o ": requests wait although only " \o ToString(r.running) \o " of " \o ToString(r.limit) \o " are outstanding", "")} ELSE {})
                       \cup (IF r.running # exp.running \/ r.qlen # exp.qlen \/ went # exp.go
                             THEN {V("C19", "throttle " \o r.thr \o ": " \o r.kind \o " left " \o ToString(<<r.running, r.qlen, went>>) \o ", Throttle.tla says " \o ToString(<<exp.running, exp.qlen, exp.go>>), "")} ELSE {})
-            IN Res([o EXCEPT !.thr = Put(o.thr, r.thr, [limit |-> r.limit, running |-> r.running, qlen |-> r.qlen])], vs)
+                \* C19: the references of one subscription - also those that events add after it has been loaded - are fetched
+                \* under one throttle: a throttle not seen before needs a client request (one root subscription each) or a
+                \* system reset that has not been given one yet
+                fresh == r.kind = "thrAdd" /\ r.thr \notin DOMAIN o.thr
+                nw == IF fresh THEN o.thrNew + 1 ELSE o.thrNew
+                vb == IF fresh /\ nw > o.thrBudget
+                      THEN {V("C19", "throttle " \o r.thr \o " is the " \o ToString(nw) \o ". one created, but only " \o ToString(o.thrBudget) \o " client requests and system resets could have made one: requests escape the limit of the throttle they belong to", "")}
+                      ELSE {}
+            IN Res([o EXCEPT !.thr = Put(o.thr, r.thr, [limit |-> r.limit, running |-> r.running, qlen |-> r.qlen]), !.thrNew = nw], vs \cup vb)
       [] r.kind = "resetres" ->
             \* the resource object that starts the re-fetch is remembered for the get request that follows (one re-fetch at a
             \* time per object is checked by ResSubTrace)
@@ -741,7 +751,7 @@ H_mevt(r) ==
                 obl == {[key |-> k, l |-> l] : k \in (cached \cup pendInit) \ refPend}
                 ct2 == [n \in DOMAIN o.ctrig \cup SeqToSet(r.matchacc) |->
                            IF n \in SeqToSet(r.matchacc) THEN Append(Get(o.ctrig, n, <<>>), l) ELSE o.ctrig[n]]
-            IN Res([o EXCEPT !.window = @ \cup hit, !.ctrig = ct2, !.resetObl = @ \cup obl], {})
+            IN Res([o EXCEPT !.window = @ \cup hit, !.ctrig = ct2, !.resetObl = @ \cup obl, !.thrBudget = @ + 1], {})
       [] r.ns = "system" /\ r.ev = "tokenReset" ->
             Res([o EXCEPT !.resets = Append(@, r.tids)], {})
       [] r.ns = "conn" /\ r.ev = "token" /\ r.c \in DOMAIN o.conns /\ ~r.bad ->
@@ -768,7 +778,9 @@ C01Viol(c, q) ==
             kf == IF cl.taintU \/ rid \in cl.unsent THEN "KF-U" ELSE IF cl.taintG THEN "KF-G" ELSE IF cl.taintW THEN "KF-W"
                   ELSE IF offH /\ rid \notin DOMAIN snap THEN "KF-H" ELSE ""
         IN IF e.k \notin {"m", "c"} \/ rid \in cl.exempt THEN {}
-           ELSE IF a.st = "del" THEN {}
+           \* deleted by the service (delete event, or a not-found answer to a re-fetch or a query request): every client that
+           \* holds the resource is sent a delete event (it marks the copy exempt above)
+           ELSE IF a.st = "del" THEN {V("C01", "client " \o c \o " holds " \o rid \o " although the service has deleted it, and was never sent a delete event", kf)}
            ELSE IF a.st = "un" THEN {V("C01", "client " \o c \o " holds " \o rid \o " but the gateway no longer tracks it (no subscription / never announced)", kf)}
            ELSE IF \E x \in a.cands : Encode(x, cl.lg) = e THEN {}
            ELSE {V("C01", "client " \o c \o " copy of " \o rid \o " = " \o ToString(e) \o " differs from the announced state " \o ToString(a.cands), kf)}
